@@ -272,4 +272,120 @@ theorem C17_size_filter_transparent (r r64 : Rat → Rat) (i : Convert.SizeInput
     | some l => simp [Option.filter, hh l hhv]
   rw [h1, h2]
 
+/-! ### the image route implements the same rule
+
+`image.rs` does not call `ViewBox::to_transform`: it fits the image size into the element rect
+(`fit_view_box`), places it with `aligned_pos`, stores it as a left/top/right/bottom rect and derives
+scale and translation from that rect.  Over exact arithmetic the result is the view-box mapping of the
+image's own rect `0 0 aw ah` onto the element rect, moved to the rect's position — so everything proved
+above about `to_transform` (uniform scale, meet inside, slice covers, alignment) holds for images too. -/
+
+/-- the scale pair the view-box rule chooses for mapping `aw x ah` onto `w x h` -/
+def ruleScale (a : Align) (slice : Bool) (w h aw ah : Rat) : Rat × Rat :=
+  if a = Align.none then (w / aw, h / ah) else (pick slice (w / aw) (h / ah), pick slice (w / aw) (h / ah))
+
+theorem pick_pos (slice : Bool) (sx sy : Rat) (hx : 0 < sx) (hy : 0 < sy) : 0 < pick slice sx sy := by
+  unfold pick; split_ifs <;> assumption
+
+theorem ruleScale_pos (a : Align) (slice : Bool) (w h aw ah : Rat)
+    (hw : 0 < w) (hh : 0 < h) (haw : 0 < aw) (hah : 0 < ah) :
+    0 < (ruleScale a slice w h aw ah).1 ∧ 0 < (ruleScale a slice w h aw ah).2 := by
+  have h1 : 0 < w / aw := div_pos hw haw
+  have h2 : 0 < h / ah := div_pos hh hah
+  unfold ruleScale; split_ifs
+  · exact ⟨h1, h2⟩
+  · exact ⟨pick_pos _ _ _ h1 h2, pick_pos _ _ _ h1 h2⟩
+
+/-- `fit_view_box` returns the image size scaled by the rule's scale pair -/
+theorem fitViewBox_eq (a : Align) (slice : Bool) (w h aw ah : Rat)
+    (hw : 0 < w) (hh : 0 < h) (haw : 0 < aw) (hah : 0 < ah) :
+    fitViewBox a slice aw ah w h =
+      some (aw * (ruleScale a slice w h aw ah).1, ah * (ruleScale a slice w h aw ah).2) := by
+  unfold fitViewBox validSize ruleScale
+  simp only [Flt.rat_mul, Flt.rat_div, Flt.rat_lt, Flt.rat_le, Flt.rat_ofNat, Nat.cast_zero]
+  by_cases hn : a = Align.none
+  · simp only [hn, if_true]; congr 1; ext <;> simp <;> field_simp
+  · simp only [hn, if_false]
+    have key : h * aw / ah < w ↔ h / ah < w / aw := by
+      rw [div_lt_iff₀ hah, div_lt_div_iff₀ hah haw]
+    have key2 : w < h * aw / ah ↔ w / aw < h / ah := by
+      rw [lt_div_iff₀ hah, div_lt_div_iff₀ haw hah]
+    have p1 : 0 < h * aw / ah := by positivity
+    have p2 : 0 < w * ah / aw := by positivity
+    cases slice
+    · simp only [Bool.false_eq_true, if_false, pick]
+      by_cases hc : w ≤ h * aw / ah
+      · have hnot : ¬ (h / ah < w / aw) := by rw [← key]; linarith
+        simp only [hc, decide_true, Bool.not_true, Bool.false_eq_true, if_false, hw, p2, Bool.and_self, if_true, hnot]
+        congr 1; ext <;> simp <;> field_simp
+      · have hlt : h / ah < w / aw := by rw [← key]; linarith
+        simp only [hc, decide_false, Bool.not_false, if_true, p1, hh, decide_true, Bool.and_self, hlt]
+        congr 1; ext <;> simp <;> field_simp
+    · simp only [if_true, pick]
+      by_cases hc : h * aw / ah ≤ w
+      · have hnot : ¬ (w / aw < h / ah) := by rw [← key2]; linarith
+        simp only [hc, decide_true, Bool.not_true, Bool.false_eq_true, if_false, hw, p2, Bool.and_self, if_true, hnot]
+        congr 1; ext <;> simp <;> field_simp
+      · have hlt : w / aw < h / ah := by rw [← key2]; linarith
+        simp only [hc, decide_false, Bool.not_false, if_true, p1, hh, decide_true, Bool.and_self, hlt]
+        congr 1; ext <;> simp <;> field_simp
+
+/-- **The image route is the view-box rule**: for an image of size `aw x ah` in the element rect
+    `x y w h`, the image group's transform is the view-box mapping of `0 0 aw ah` onto `w x h`, moved to
+    `(x, y)` — for all ten alignments with meet, slice and none. -/
+theorem C17_image_route_is_viewbox_rule (a : Align) (slice : Bool) (x y w h aw ah : Rat)
+    (hw : 0 < w) (hh : 0 < h) (haw : 0 < aw) (hah : 0 < ah) :
+    ∃ t, imageTransform a slice (LTRB.fromXywh x y w h) aw ah = some t ∧
+      t.sx = (viewBoxToTransform a slice 0 0 aw ah w h).sx ∧
+      t.sy = (viewBoxToTransform a slice 0 0 aw ah w h).sy ∧
+      t.tx = x + (viewBoxToTransform a slice 0 0 aw ah w h).tx ∧
+      t.ty = y + (viewBoxToTransform a slice 0 0 aw ah w h).ty := by
+  have hw' : (LTRB.fromXywh x y w h).width = w := by
+    simp [LTRB.fromXywh, LTRB.width]
+  have hh' : (LTRB.fromXywh x y w h).height = h := by
+    simp [LTRB.fromXywh, LTRB.height]
+  obtain ⟨hs1, hs2⟩ := ruleScale_pos a slice w h aw ah hw hh haw hah
+  have hf1 : 0 < aw * (ruleScale a slice w h aw ah).1 := mul_pos haw hs1
+  have hf2 : 0 < ah * (ruleScale a slice w h aw ah).2 := mul_pos hah hs2
+  unfold imageTransform
+  rw [hw', hh', fitViewBox_eq a slice w h aw ah hw hh haw hah]
+  simp only [alignedPos_eq, LTRB.fromXywh, LTRB.isNonZero, LTRB.width, LTRB.height, LTRB.x, LTRB.y,
+    Flt.rat_add, Flt.rat_sub, Flt.rat_lt, Flt.rat_div]
+  have c1 : ∀ p : Rat, p < aw * (ruleScale a slice w h aw ah).1 + p := fun p => by linarith
+  have c2 : ∀ p : Rat, p < ah * (ruleScale a slice w h aw ah).2 + p := fun p => by linarith
+  simp only [c1, c2, decide_true, Bool.and_self, if_true]
+  refine ⟨_, rfl, ?_, ?_, ?_, ?_⟩
+  all_goals rw [vbt_eq]
+  all_goals simp only [ruleScale]
+  all_goals split_ifs <;> simp <;> field_simp
+
+/-- hence, with `meet`, the whole image lands inside the element rect `x y w h` … -/
+theorem C17_image_meet_inside (a : Align) (ha : a ≠ Align.none) (x y w h aw ah : Rat)
+    (hw : 0 < w) (hh : 0 < h) (haw : 0 < aw) (hah : 0 < ah) :
+    ∃ t, imageTransform a false (LTRB.fromXywh x y w h) aw ah = some t ∧
+      x ≤ 0 * t.sx + t.tx ∧ aw * t.sx + t.tx ≤ x + w ∧ y ≤ 0 * t.sy + t.ty ∧ ah * t.sy + t.ty ≤ y + h := by
+  obtain ⟨t, ht, h1, h2, h3, h4⟩ := C17_image_route_is_viewbox_rule a false x y w h aw ah hw hh haw hah
+  have m := C17_meet_inside a 0 0 aw ah w h ha haw hah
+  simp only [imgL, imgR, imgT, imgB, zero_add] at m
+  refine ⟨t, ht, ?_, ?_, ?_, ?_⟩ <;> rw [h1, h3] at * <;> first | (rw [h1, h3]; linarith [m.1, m.2.1]) | skip
+  all_goals (first | rw [h2, h4] | skip)
+  all_goals linarith [m.1, m.2.1, m.2.2.1, m.2.2.2]
+
+/-- … and with `slice` it covers the element rect (what is outside is removed by the clip group) -/
+theorem C17_image_slice_covers (a : Align) (ha : a ≠ Align.none) (x y w h aw ah : Rat)
+    (hw : 0 < w) (hh : 0 < h) (haw : 0 < aw) (hah : 0 < ah) :
+    ∃ t, imageTransform a true (LTRB.fromXywh x y w h) aw ah = some t ∧
+      0 * t.sx + t.tx ≤ x ∧ x + w ≤ aw * t.sx + t.tx ∧ 0 * t.sy + t.ty ≤ y ∧ y + h ≤ ah * t.sy + t.ty := by
+  obtain ⟨t, ht, h1, h2, h3, h4⟩ := C17_image_route_is_viewbox_rule a true x y w h aw ah hw hh haw hah
+  have m := C17_slice_covers a 0 0 aw ah w h ha haw hah
+  simp only [imgL, imgR, imgT, imgB, zero_add] at m
+  refine ⟨t, ht, ?_, ?_, ?_, ?_⟩
+  all_goals (first | rw [h1, h3] | rw [h2, h4])
+  all_goals linarith [m.1, m.2.1, m.2.2.1, m.2.2.2]
+
+/-- the hypotheses are satisfiable and the rule is not trivial: a 2x1 image in a 10x10 rect at (3, 4),
+    xMidYMid meet, is scaled by 5 and centred vertically -/
+example : (imageTransform Align.xMidYMid false (LTRB.fromXywh (3 : Rat) 4 10 10) 2 1).map
+    (fun t => (t.sx, t.sy, t.tx, t.ty)) = some (5, 5, 3, 4 + 5 / 2) := by decide +kernel
+
 end Resvg.Props.C17
